@@ -86,3 +86,14 @@ Proof.
      (instance-dependent) types of the goal *)
   repeat split; lazymatch goal with |- _ = ?v => vm_cast_no_check (@eq_refl _ v) end.
 Qed.
+
+(** The premise "no non-transactional read" is checked on the cores regenerated from the source: a
+    read_atomic in betas.rs is outside the translator's grammar (broken tie), and these equalities tie the
+    generated programs to the ones [C07_premise_*] speak about. *)
+From HC Require Import Map2.GenBetas Map2.GenBetasLaws.
+Theorem C07_cores_are_the_source `{Sig} :
+  (forall l r, gen_one_link_core l r = one_link_core l r) /\ (forall l r, gen_two_link_core l r = two_link_core l r) /\
+  (forall l r, gen_three_link_core l r = three_link_core l r) /\ (forall l, gen_one_unlink_core l = one_unlink_core l) /\
+  (forall l, gen_two_unlink_core l = two_unlink_core l) /\ (forall l, gen_three_unlink_core l = three_unlink_core l).
+Proof. exact cores_are_the_source. Qed.
+Print Assumptions C07_cores_are_the_source.
